@@ -26,8 +26,8 @@ ASSUMPTIONS = [
 
 BADCOMPILE = ['return 5', 'yield 5', 'break', 'continue', 'nonlocal sim_x', 'def sim_bad(a, a): pass',
               '__debug__ = 1', 'from __future__ import nope']
-KINDS = ['wrong', 'raise_direct', 'raise_called', 'raise_helper', 'raise_helper', 'badcompile', 'bad_repr',
-         'import_error', 'baddirective', 'trace', 'stream', 'none']
+KINDS = ['wrong', 'raise_direct', 'raise_called', 'raise_helper', 'raise_helper', 'badcompile', 'bad_repr', 'bad_repr',
+         'import_error', 'baddirective', 'trace', 'stream', 'none', 'wantcorrupt', 'ignore_want_exc']
 
 
 def _helper_shape(rng, world, dtid_pick=None):
@@ -65,6 +65,7 @@ def generate(rng, tier):
                           p_helper=rng.choice([0.1, 0.3]))
     cfg['n_modules'] = (1, 2)
     cfg['n_funcs'] = (1, 3)
+    cfg['forms'] = list(gen.SIMPLE_FORMS) + ['emitop', 'emitop']
     if rng.random() < 0.2:
         cfg['async_forms'] = list(gen.ASYNC_FORMS)
         cfg['p_async'] = 0.3
@@ -100,6 +101,44 @@ def generate(rng, tier):
                     st = {'i': base, 'form': 'directive', 'pts': [], 'ps2': False, 'sep': 'none',
                           'dirs': [['+', 'REQUIRES', 'badflag:X']]}
                     steps[pos:pos] = [st]
+    iw_pid = None
+    if kind in ('wantcorrupt', 'ignore_want_exc'):
+        cands = [(dtid, dt, st) for dtid, dt, mod in W.iter_doctests(world) for st in dt['steps']
+                 if st.get('want') in ('acc', 'last', 'repr') and st.get('pts')]
+        if cands:
+            target_dt, dt, st = rng.choice(cands)
+            if kind == 'wantcorrupt':
+                kinds = ['replace', 'append', 'prepend', 'droplast']
+                if W.form_out(st) or W.value_repr(st):
+                    # (where the statement itself writes nothing, whether an empty-line
+                    # marker equals "no output" is a matter of normalisation: not generated)
+                    kinds += ['blankline', 'blankline']
+                st['want_corrupt'] = rng.choice(kinds)
+            else:
+                # a want that is switched off must not switch off the exception with it
+                iw_pid = st['pts'][0]
+                if rng.random() < 0.5 and st['form'] not in ('tq', 'tqprint'):
+                    st['inline'] = [['+', 'IGNORE_WANT', None]]
+                    st['inline_at'] = rng.choice(['first', 'last'])
+                else:
+                    base = max(x['i'] for x in dt['steps']) + 1
+                    pos = rng.randint(0, dt['steps'].index(st))
+                    dt['steps'].insert(pos, {'i': base, 'form': 'directive', 'pts': [], 'ps2': False,
+                                             'sep': 'none', 'dirs': [['+', 'IGNORE_WANT', None]]})
+                    dt['steps'][0]['sep'] = 'none'
+        else:
+            kind = 'none'
+    rerun = rng.random() < 0.25
+    if rerun and rng.random() < 0.6:
+        # parts that are switched off, in a doctest that is run more than once
+        tgt = target_dt or rng.choice(ids)
+        for _dtid, _dt, _mod in W.iter_doctests(world):
+            if _dtid == tgt and not any(x.get('inline') for x in _dt['steps']):
+                target_dt = tgt
+                how = rng.choice(['tail', 'region', 'inline', 'head'])
+                st0 = rng.getstate()
+                while gen.add_skips(rng, _dt['steps']) in ('all', 'all_requires'):
+                    pass
     for _dtid, _dt, _mod in W.iter_doctests(world):
         gen.fix_chunk_starts(_dt['steps'])
     # ---- operations
@@ -109,12 +148,20 @@ def generate(rng, tier):
     if target_dt is None:
         target_dt = rng.choice(ids)
     target_mod = [m for m in world['modules'] if target_dt.startswith(m['name'] + '::')][0]
+    n_runs = 1
+    if rerun:
+        shape = 'obj'
+        n_runs = rng.randint(2, 3)
     if shape == 'obj':
-        ops.append({'op': 'run_obj', 'dt': target_dt, 'verbose': verbose, 'on_error': 'return'})
+        mode = rng.choice(['native', 'native', 'pytest'])
+        ops.append({'op': 'run_obj', 'dt': target_dt, 'verbose': verbose, 'on_error': 'return', 'mode': mode})
         others = [d for d in ids if d != target_dt]
         rng.shuffle(others)
         for d in others[:rng.randint(0, 2)]:
             ops.append({'op': 'run_obj', 'dt': d, 'verbose': verbose, 'on_error': 'return'})
+        for _ in range(n_runs - 1):
+            # the same object again: what is recorded is about this run
+            ops.append({'op': 'run_obj', 'dt': target_dt, 'verbose': rng.choice([verbose, 0]), 'on_error': 'return', 'mode': mode})
     elif shape == 'runner':
         ops.append({'op': 'runner', 'target': target_mod['relpath'], 'command': 'all', 'verbose': verbose})
     else:
@@ -141,8 +188,12 @@ def generate(rng, tier):
     elif kind == 'raise_helper':
         plan.append({'dt': target_dt, 'k': k, 'pid': target_pid, 'kind': 'raise',
                      'exc': rng.choice(['ValueError', 'KeyError', 'SimError']), 'msg': 'fault in helper'})
+    elif kind == 'ignore_want_exc' and iw_pid:
+        plan.append({'dt': target_dt, 'k': k, 'pid': iw_pid, 'kind': 'raise',
+                     'exc': rng.choice(['ValueError', 'KeyError', 'ZeroDivisionError', 'SimError']), 'msg': 'fault ' + iw_pid,
+                     'depth': rng.choice([0, 0, 2])})
     elif kind == 'bad_repr' and pts:
-        vals = [p for p in pts if p['form'] in ('expr', 'multiline', 'callmod_expr', 'callhelper_expr', 'awaitexpr')]
+        vals = [p for p in pts if p['form'] in ('expr', 'multiline', 'callmod_expr', 'callhelper_expr', 'awaitexpr', 'emitop')]
         p = rng.choice(vals or pts)
         plan.append({'dt': target_dt, 'k': k, 'pid': p['pid'], 'kind': 'bad_repr'})
     elif kind == 'import_error':
@@ -159,6 +210,13 @@ def generate(rng, tier):
                 op['argv'][-1] = '--verbose=3'
         plan.append({'dt': target_dt, 'k': k, 'stream_write': rng.randint(0, 4),
                      'exc': rng.choice(['BlockingIOError', 'UnicodeEncodeError', 'OSError'])})
+    if n_runs > 1:
+        # the same behaviour in every run of the target (faults are addressed per execution)
+        for f in list(plan):
+            if f.get('dt') == target_dt and f.get('k') == 0 and 'trace_frac' not in f:
+                for kk in range(1, n_runs):
+                    if rng.random() < 0.7:
+                        plan.append(dict(f, k=kk))
     scn = {'profile': ID, 'world': world, 'ops': ops, 'plan': plan, 'render': True,
            'env': {'listing_seed': rng.randint(0, 99)}, 'kind': kind}
     return scn
